@@ -30,6 +30,9 @@ TEMPLATE_NAMES = ["ta", "tb", "Tc", "t d", "te"]
 MISSING_NAMES = ["nope", "Zz top"]
 PARAM_NAMES = ["1", "2", "3", "k", "n m", "key"]
 PADS = ["", "", " ", "\n", "  ", " \n"]
+# names of named arguments: plain, positive numeric (integer keys), and the
+# numeric look-alikes that stay strings (zero, zero-padded zero, negative)
+ARG_KEYS = ["k", "key", "n m", "1", "2", "3", "k", "1", "0", "00", "02", "-1"]
 
 
 def _mk_atom(parts):
@@ -265,7 +268,7 @@ def _arglist(names, in_template, nowiki=True, padset=None, pfn=True):
                     min_size=4, max_size=4)
     arg = st.one_of(
         sub.map(lambda s: ["pos", s]),
-        st.tuples(st.sampled_from(["k", "key", "n m", "1", "2", "3"]), sub,
+        st.tuples(st.sampled_from(ARG_KEYS), sub,
                   pads).map(lambda t: ["named", t[0], t[1], t[2]]),
     )
     return st.lists(arg, max_size=3)
